@@ -295,6 +295,7 @@ func (svr *StrictServerImpl) getLocalTrust(
 		result openapi.InlineTrustMatrix
 		err    error
 	)
+	result.Scheme = openapi.InlineTrustMatrixSchemeInline
 	err = tm.LockAndRun(func(c *sparse.Matrix, timestamp *big.Int) error {
 		result.Size, err = c.Dim()
 		if err != nil {
@@ -336,9 +337,9 @@ func (svr *StrictServerImpl) UpdateLocalTrust(
 	logger := util.LoggerWithCaller(*zerolog.Ctx(ctx))
 	c, err := svr.loadTrustMatrix(ctx, request.Body)
 	if err != nil {
-		return nil, server.HTTPError{
-			Code: 400, Inner: fmt.Errorf("cannot load local trust: %w", err),
-		}
+		var resp openapi.UpdateLocalTrust400JSONResponse
+		resp.Message = fmt.Sprintf("cannot load local trust: %s", err)
+		return resp, nil
 	}
 	cDim, err := c.Dim()
 	if err != nil {
